@@ -648,6 +648,16 @@ class C10(Prop):
         return f"{hexs(pat)}/{int(level)}/{show_bool(rx)}"
 
     @staticmethod
+    def _num(tok):
+        """`3` -> 3, `b1` -> True, `f3` -> 3.0: integral values of another numeric type (legal for rate_limit /
+        severity_threshold, compare like the integer)"""
+        if tok.startswith("b"):
+            return bool(int(tok[1:]))
+        if tok.startswith("f"):
+            return float(int(tok[1:]))
+        return int(tok)
+
+    @staticmethod
     def _parse_sig(tok):
         p, l, r = tok.split("/")
         return unhexs(p), int(l), r == "1"
@@ -743,14 +753,15 @@ class C10(Prop):
         for _ in range(rng.choice([1, 2, 3, 4, 6, 8, 10, 14])):
             op = rng.choice(["filter"] * 14 + ["learn", "learn", "forget", "import", "thr", "addsig", "adv", "adv",
                                                "clearaudit", "stats", "export", "thrattr", "rate", "rate", "adaptive",
-                                               "hook", "hook", "par", "par", "new", "use", "xfer"])
+                                               "hook", "hook", "par", "par", "new", "use", "xfer", "sigop", "sigop",
+                                               "envelope", "sigobj"])
             if op == "new":
                 colony[cur] = (sigs, learned, adaptive, hooked)
                 custom = [self._rand_sig(rng, 3) for _ in range(rng.choice([0, 0, 1, 2]))]
                 adaptive = rng.random() < 0.7
                 lines.append(" ".join(["new", str(rng.choice([0, 1, 2, 2, 3])), rng.choice(["none", "none", "1", "2", "3"]),
                                        show_bool(adaptive)] + custom))
-                sigs, learned, hooked = sigs[:nb] + custom, {}, False
+                sigs, learned, hooked = list(builtin) + custom, {}, False
                 colony.append(None)
                 cur = len(colony) - 1
             elif op == "use":
@@ -810,7 +821,29 @@ class C10(Prop):
             elif op in ("thr", "thrattr"):
                 lines.append(f"{op} {rng.choice([0, 1, 2, 3])}")
             elif op == "rate":
-                lines.append(f"rate {rng.choice(['none', '0', '1', '2', '3', '5', '8'])}")
+                lines.append(f"rate {rng.choice(['none', '0', '1', '2', '3', '5', '8', 'b1', 'b0', 'f2', 'f3'])}")
+            elif op == "envelope":
+                lines.append(f"envelope {rng.randrange(self.N_ENVELOPES)}")
+            elif op == "sigobj":
+                lines.append(f"sigobj {rng.choice(['reuse', 'reuse', 'mutate', 'fresh'])}")
+            elif op == "sigop":
+                k_ = rng.choice(["append", "append", "insert0", "pop", "remove0", "clear", "assign"])
+                if k_ in ("append", "insert0"):
+                    sg = self._rand_sig(rng, 3)
+                    if hist and rng.random() < 0.4:
+                        h = rng.choice(hist)
+                        if h:
+                            a = rng.randrange(len(h))
+                            sg = self._sigtok(h[a:a + rng.randint(1, 6)], rng.randint(1, 3), False)
+                    sigs = sigs + [sg] if k_ == "append" else [sg] + sigs
+                    lines.append(f"sigop {k_} {sg}")
+                elif k_ == "assign":
+                    sigs = [self._rand_sig(rng, 3) for _ in range(rng.choice([0, 1, 2]))] + \
+                        [x for x in sigs if rng.random() < 0.5]
+                    lines.append(" ".join(["sigop", "assign"] + sigs))
+                else:
+                    sigs = sigs[:-1] if k_ == "pop" else sigs[1:] if k_ == "remove0" else []
+                    lines.append(f"sigop {k_}")
             elif op == "adaptive":
                 adaptive = rng.random() < 0.5
                 lines.append(f"adaptive {show_bool(adaptive)}")
@@ -1034,6 +1067,15 @@ class C10(Prop):
             out.append({"lines": ["mem 2 none 1 " + jb, f"bulk {n} {hexs('jailbreak #')} -", "forget " + hexs("jailbreak"), "thr 3",
                                   "setsig 0 " + self._sigtok("never-seen", 1, False), f"bulk {n} {hexs('jailbreak #')} -", "stats"],
                         "note": f"{n} inputs blocked, rules relaxed, the same {n} inputs again"})
+        # (6) innate filter: a long run of checks (each blocked / each allowed / each a weak hit), then probes
+        om, ze = self._sigtok("omega", 5, False), self._sigtok("zebra", 1, False)
+        for n in ([1200] if tier == "quick" else [1200, 6000]):
+            out.append({"lines": [" ".join(["inn", "3", "15", "L:0:200,C:0:0", om, ze]), "check " + hexs("say Omega now"),
+                                  f"bulkcheck {n} - {hexs(' omega again')}", "check " + hexs("SAY OMEGA NOW"), "check " + hexs("hello"),
+                                  f"bulkcheck {n // 4} {hexs('benign #')} -", f"bulkcheck {n // 4} {hexs('a zebra #')} -",
+                                  "adv 900125000", "check " + hexs("hello"), "check " + hexs("well, omega"), "patop remove0",
+                                  "check " + hexs("well, omega"), "check " + hexs("a zebra"), "istats"],
+                        "note": f"innate: {n} blocked checks in a row, then allowed / weak-hit runs, cool-down, probes"})
         # (5) clock gaps between the block and the relaxation / the replay
         for gap in (3_600_000_000, 86_399_875_000, 86_400_000_000, 7 * 86_400_000_000, 366 * 86_400_000_000):
             for relax in (["forget " + hexs("zeta-token")], ["thr 3"]):
@@ -1150,7 +1192,7 @@ class C10(Prop):
         deep_ok = huge_ok
         for _ in range(rng.choice([1, 2, 3, 4, 6, 8])):
             op = rng.choice(["check"] * 13 + ["addpat", "addval", "resetinfl", "adv", "adv", "istats", "setvals",
-                                              "sevthr", "ihook", "ihook", "inew", "iuse"])
+                                              "sevthr", "ihook", "ihook", "inew", "iuse", "patop", "patop", "bulkcheck"])
             if op == "inew":
                 icolony[icur] = (pats, jcfg)
                 custom = [self._rand_sig(rng, 6) for _ in range(rng.choice([0, 1, 2]))]
@@ -1197,7 +1239,23 @@ class C10(Prop):
                 jcfg = next(((int(v.split(":")[1]), int(v.split(":")[2])) for v in vs.split(",") if v.startswith("J")), None)
                 lines.append("setvals " + vs)
             elif op == "sevthr":
-                lines.append(f"sevthr {rng.choice([0, 1, 2, 3, 4, 5, 6])}")
+                lines.append(f"sevthr {rng.choice([0, 1, 2, 3, 4, 5, 6, 'b1', 'f3', 'f5'])}")
+            elif op == "bulkcheck":
+                inst = self._instance(rng, rng.choice(pats)) if pats and rng.random() < 0.7 else "benign"
+                lines.append("ihook none")
+                lines.append(f"bulkcheck {rng.choice([12, 64, 130])} {hexs(rng.choice(['', 'n', '# ']))} {hexs(' ' + inst + rng.choice(['', ' x']))}")
+            elif op == "patop":
+                k_ = rng.choice(["append", "append", "insert0", "pop", "remove0", "clear", "assign"])
+                if k_ in ("append", "insert0"):
+                    sg = self._rand_sig(rng, 6)
+                    pats = pats + [sg] if k_ == "append" else [sg] + pats
+                    lines.append(f"patop {k_} {sg}")
+                elif k_ == "assign":
+                    pats = [self._rand_sig(rng, 6) for _ in range(rng.choice([0, 1, 2]))] + [x for x in pats if rng.random() < 0.5]
+                    lines.append(" ".join(["patop", "assign"] + pats))
+                else:
+                    pats = pats[:-1] if k_ == "pop" else pats[1:] if k_ == "remove0" else []
+                    lines.append(f"patop {k_}")
             elif op == "ihook":
                 lines.append(f"ihook {rng.choice(['none', 'ok', 'R', 'K', 'E'])}")
             elif op == "adv":
@@ -1283,7 +1341,7 @@ class C10(Prop):
                                 "note": "100k+ input with an instance of a shipped signature at the end / start / middle"})
         retune = []
         for r0 in ["none", "0", "1", "2", "3"]:
-            for r1 in ["none", "0", "1", "2", "3", "5"]:
+            for r1 in ["none", "0", "1", "2", "3", "5", "b1", "f2"]:
                 for gap in (None, "adv 30000000", "adv 60000000"):
                     for hook in (None, "hook K"):
                         ls = [f"mem 2 {r0} 1 " + self._sigtok("jailbreak", 3, False)] + ([hook] if hook else [])
@@ -1324,9 +1382,43 @@ class C10(Prop):
             for a in range(1, L + 1):
                 for b in range(1 + (a % stride), L + 1, stride):
                     flood(2, [first] * a + [1 - first] * b + [first] * 9999)
-        return [{"name": "long histories on one membrane: 5000+ further blocked inputs between a block and the relaxation of "
+        jbs = self._sigtok("jailbreak", 3, False)
+        wraps = []
+        for k in range(self.N_ENVELOPES):
+            for mode in ("fresh", "reuse", "mutate"):
+                wraps.append({"lines": ["mem 2 none 1 " + jbs, f"envelope {k}", f"sigobj {mode}", "filter " + hexs("hello"),
+                                        "filter " + hexs("a JailBreak!"), "filter " + hexs("hello"), "learn " + self._sigtok("hello", 2, False),
+                                        "filter " + hexs("hello"), "filter " + hexs("Hello there"), "envelope 0", "filter " + hexs("hello, again"),
+                                        "forget " + hexs("hello"), "filter " + hexs("hello"), "filter " + hexs("say hello"), "stats"],
+                              "note": "the input wrapped in another envelope (source / type / strength / metadata / trace id / "
+                                      "timestamp), the same Signal object sent again or edited in place"})
+        edits = []
+        ealpha = ["sigop append " + self._sigtok("hello", 2, False), "sigop insert0 " + self._sigtok("hello", 3, False), "sigop pop",
+                  "sigop remove0", "sigop clear", "sigop assign " + self._sigtok("there", 2, False), "sigop assign",
+                  "filter " + hexs("hello there"), "filter " + hexs("a JailBreak!"), "new 2 none 1", "use 0"]
+        for k in range(1, 4):
+            for ops in itertools.product(ealpha, repeat=k):
+                if any(o.startswith("filter") for o in ops) and any(o.startswith("sigop") for o in ops):
+                    edits.append({"lines": ["mem 2 none 1 " + jbs] + list(ops) + ["filter " + hexs("oh, hello there jailbreak"), "stats"],
+                                  "note": f"the public list m.signatures edited directly, depth {k}"})
+        palpha = ["patop append " + self._sigtok("hello", 4, False), "patop insert0 " + self._sigtok("hello", 5, False), "patop pop",
+                  "patop remove0", "patop clear", "patop assign " + self._sigtok("there", 4, False),
+                  "check " + hexs("hello there"), "check " + hexs("say Omega"), "inew 3 15 none", "iuse 0"]
+        for k in range(1, 4):
+            for ops in itertools.product(palpha, repeat=k):
+                if any(o.startswith("check") for o in ops) and any(o.startswith("patop") for o in ops):
+                    edits.append({"lines": ["inn 3 15 none " + self._sigtok("omega", 5, False)] + list(ops)
+                                  + ["check " + hexs("oh, hello there omega"), "istats"],
+                                  "note": f"the public list im.patterns edited directly, depth {k}"})
+        return [{"name": "the input wrapped differently: 16 envelopes (source / signal type / strength / metadata flags / "
+                         "trace id / timestamp) x Signal object new / sent again / edited in place, rules changed between "
+                         "the calls", "cases": wraps},
+                {"name": "the public lists m.signatures / im.patterns edited directly (append / insert / pop / del / clear / "
+                         "re-assignment, not through add_signature / add_pattern), a second gate of the class alive: all "
+                         "histories of <= 3 ops with at least one edit and one probe", "cases": edits},
+                {"name": "long histories on one membrane: 5000+ further blocked inputs between a block and the relaxation of "
                          "the rules (replay memory), 5000+ calls inside one rate window under a limit of 4500+, 1500+ learned "
-                         "patterns, a long run repeated after the rules were relaxed; clock gaps of an hour .. a year between "
+                         "patterns, a long run repeated after the rules were relaxed, 1200+ checks in a row on one innate filter; clock gaps of an hour .. a year between "
                          "a block and its replay x forget / threshold x rate limit", "cases": self._long_histories(tier)},
                 {"name": f"flood: 2 threads call filter() at one instant with rate_limit-1 requests already admitted; every "
                          f"schedule with one context switch (limits 1-3, either thread first, switch after each of the "
@@ -1337,7 +1429,7 @@ class C10(Prop):
                 {"name": "two membranes alive (donor that learned a pattern, recipient with adaptive immunity off and "
                          "threshold CRITICAL): all histories of <= 3 ops over use / xfer / filter (hit, benign) / forget / "
                          "learn (same key, other level) / thr / addsig", "cases": colony},
-                {"name": "rate limit re-assigned on a live membrane: 5 initial x 6 new limits x 3 time gaps x hook/no hook, "
+                {"name": "rate limit re-assigned on a live membrane: 5 initial x 8 new limits (incl. True and 2.0) x 3 time gaps x hook/no hook, "
                          "3 warm-up calls + burst of 8", "cases": retune},
                 {"name": "every shipped signature (membrane, innate; in the full shipped table and alone) x instances "
                          "derived from the signature itself (parse tree, attack corpus; vetted standing alone) x "
@@ -1415,6 +1507,41 @@ class C10(Prop):
                 raise exc
         return hook
 
+    # how an input string reaches the membrane: the other fields of the Signal, and whether the Signal OBJECT is new,
+    # one that was sent before, or one object whose content is edited in place between the calls
+    N_ENVELOPES = 16
+
+    def _envelope(self, k):
+        import datetime as _dt
+        from operon_ai.core import types as T
+        ST, SS = T.SignalType, T.SignalStrength
+        meta = {"trusted": True, "internal": True, "bypass": True, "safe": True, "allow": True, "whitelisted": True,
+                "verified": True, "role": "system", "skip_filter": True}
+        table = [{}, {"source": "System"}, {"source": "Membrane"}, {"source": ""}, {"source": "admin"},
+                 {"signal_type": ST.INTERNAL}, {"signal_type": ST.PARACRINE}, {"signal_type": ST.ENDOCRINE},
+                 {"signal_type": ST.AUTOCRINE}, {"strength": SS.WEAK}, {"strength": SS.STRONG},
+                 {"strength": SS.SATURATING}, {"metadata": dict(meta)}, {"trace_id": "trace-0001"},
+                 {"timestamp": _dt.datetime(2001, 1, 1)},
+                 {"source": "System", "signal_type": ST.INTERNAL, "strength": SS.SATURATING, "metadata": dict(meta),
+                  "trace_id": "t", "timestamp": _dt.datetime(2001, 1, 1)}]
+        return table[k % len(table)]
+
+    def _signal(self, content):
+        env = self._envelope(self.env_k)
+        if self.sig_mode == "reuse":
+            key = (content, self.env_k)
+            if key not in self.sig_cache:
+                self.sig_cache[key] = self.Signal(content=content, **env)
+            return self.sig_cache[key]
+        if self.sig_mode == "mutate":
+            if self.sig_one is None:
+                self.sig_one = self.Signal(content=content, **env)
+            self.sig_one.content = content
+            for k_, v_ in env.items():
+                setattr(self.sig_one, k_, v_)
+            return self.sig_one
+        return self.Signal(content=content, **env)
+
     def _rx_obs(self, content, entries=None):
         """canonical list of the regex calls made since the log was cleared + the table handed to the driver"""
         calls, table = [], {}
@@ -1439,6 +1566,7 @@ class C10(Prop):
         members, mcls, nbuiltin = [], None, 0
         imembers, icls, inb = [], None, 0
         self.clock.us = 0
+        self.env_k, self.sig_mode, self.sig_cache, self.sig_one = 0, "fresh", {}, None
         for idx, raw in enumerate(lines):
             line = raw.split(" @", 1)[0].rstrip()
             t = line.split(" ")
@@ -1496,7 +1624,7 @@ class C10(Prop):
                     exc = None
                     r = None
                     try:
-                        r = m.filter(self.Signal(content=content))
+                        r = m.filter(self._signal(content))
                     except Exception as e:
                         exc = e
                     calls, table = self._rx_obs(content)
@@ -1565,7 +1693,37 @@ class C10(Prop):
                     m.threshold = MB.ThreatLevel(int(t[1]))
                     obs.append("ok")
                 elif op == "rate":
-                    m.rate_limit = None if t[1] == "none" else int(t[1])
+                    m.rate_limit = None if t[1] == "none" else self._num(t[1])
+                    obs.append("ok")
+                elif op == "envelope":
+                    self.env_k = int(t[1])
+                    obs.append("ok")
+                elif op == "sigobj":
+                    self.sig_mode = t[1]
+                    obs.append("ok")
+                elif op in ("sigop", "patop"):
+                    if op == "sigop":
+                        owner, attr, mk_ = m, "signatures", self._mk_sig
+                    else:
+                        owner, attr, mk_ = im, "patterns", self._mk_pat
+                    L = getattr(owner, attr)
+                    k_ = t[1]
+                    if k_ in ("append", "insert0") and len(t) < 3 or k_ in ("pop", "remove0") and not L \
+                            or k_ not in ("append", "insert0", "pop", "remove0", "clear", "assign"):
+                        obs.append("bad-op")
+                        continue
+                    if k_ == "append":
+                        L.append(mk_(t[2]))
+                    elif k_ == "insert0":
+                        L.insert(0, mk_(t[2]))
+                    elif k_ == "pop":
+                        L.pop()
+                    elif k_ == "remove0":
+                        del L[0]
+                    elif k_ == "clear":
+                        del L[:]
+                    else:
+                        setattr(owner, attr, [mk_(x) for x in t[2:]])
                     obs.append("ok")
                 elif op == "adaptive":
                     m.enable_adaptive = t[1] == "1"
@@ -1660,6 +1818,8 @@ class C10(Prop):
                     ms = sorted(self._sigtok(p.pattern, p.severity, p.is_regex) for p in r.matched_patterns)
                     obs.append(f"{show_bool(r.allowed)} m=[{','.join(ms)}] err={len(r.structural_errors)} "
                                f"lvl={int(r.inflammation.level)} {tail}")
+                elif op == "bulkcheck":
+                    obs.append(self._run_bulkcheck(im, t, line, lines, idx))
                 elif op == "addpat":
                     im.add_pattern(self._mk_pat(t[1]))
                     obs.append("ok")
@@ -1670,7 +1830,7 @@ class C10(Prop):
                     im.validators = [] if t[1] in ("empty", "none") else [self._mk_val(v) for v in t[1].split(",")]
                     obs.append("ok")
                 elif op == "sevthr":
-                    im.severity_threshold = int(t[1])
+                    im.severity_threshold = self._num(t[1])
                     obs.append("ok")
                 elif op == "ihook":
                     im.on_inflammation = self._mk_ihook(im, t[1])
@@ -1687,10 +1847,10 @@ class C10(Prop):
                 else:
                     obs.append("bad-op")
             except (AttributeError, TypeError, ValueError, IndexError, KeyError) as e:
-                if (m is None and op not in ("inn", "check", "addpat", "addval", "resetinfl", "istats", "setvals",
-                                             "sevthr", "ihook", "inew", "iuse")) or \
+                if (m is None and op not in ("inn", "check", "bulkcheck", "addpat", "addval", "resetinfl", "istats", "setvals",
+                                             "sevthr", "ihook", "inew", "iuse", "patop")) or \
                         (im is None and op in ("addpat", "addval", "resetinfl", "istats", "setvals", "sevthr", "ihook",
-                                               "inew", "iuse")):
+                                               "inew", "iuse", "patop")):
                     obs.append("bad-op")      # operation before any configuration line (shrunk / malformed case)
                 else:
                     raise
@@ -1710,10 +1870,11 @@ class C10(Prop):
             if isinstance(v, (_LOCK_T, _RLOCK_T)):
                 saved[k] = v
                 setattr(m, k, OrderLock(sched, isinstance(v, _RLOCK_T), k, acqlog))
-        sig = self.Signal
+        sigs_ = [self._signal(c_) for c_ in contents] if self.sig_mode != "mutate" else \
+            [self.Signal(content=c_, **self._envelope(self.env_k)) for c_ in contents]
 
         def mk(i):
-            return lambda: m.filter(sig(content=contents[i]))
+            return lambda: m.filter(sigs_[i])
         try:
             finished = sched.run([mk(i) for i in range(n)], join_timeout=5)
         finally:
@@ -1747,6 +1908,51 @@ class C10(Prop):
                 f"tb={st['total_blocked']} ln={st['learned_patterns']} bh={st['blocked_hashes']}"
                 + (" leaked=" + ",".join(leaked) if leaked else ""))
 
+    def _run_bulkcheck(self, im, t, line, lines, idx):
+        """`bulkcheck <n> <pre> <suf>`: n check() calls on the one innate filter, inputs pre + str(i) + suf.  Recorded after
+        `@`: per regex key the run-length vector of the real `re` results; after `;` the json.loads outcome (the same for
+        every call, else `O`)."""
+        n = int(t[1])
+        if im is None or im.on_inflammation is not None or n > 30000:
+            return "bad-op"
+        pre, suf = unhexs(t[2]), unhexs(t[3])
+        heads, bits, jsall = [], {}, set()
+        for i in range(n):
+            content = pre + str(i) + suf
+            k0, j0 = len(self.rxlog), len(self.jsonlog)
+            try:
+                r = im.check(content)
+            except Exception as e:
+                heads.append(f"raise:{type(e).__name__}")
+                continue
+            entries = self.rxlog[k0:]
+            calls, _ = self._rx_obs(content, entries)
+            seen = {}
+            for (_m, pat, _f, _s, res) in entries:
+                seen.setdefault(rxkey(pat), res)
+            for k, v in seen.items():
+                bits.setdefault(k, [False] * n)[i] = bool(v)
+            js = self.jsonlog[j0:]
+            jsall.update(js)
+            ms = sorted(self._sigtok(p_.pattern, p_.severity, p_.is_regex) for p_ in r.matched_patterns)
+            heads.append(f"{show_bool(r.allowed)} m=[{','.join(ms)}] err={len(r.structural_errors)} "
+                         f"lvl={int(r.inflammation.level)} rx={calls} json={len(js)}")
+            if len(self.rxlog) > 200_000:
+                del self.rxlog[:], self.jsonlog[:]
+        segs = []
+        for h in heads:
+            if segs and segs[-1][0] == h:
+                segs[-1][1] += 1
+            else:
+                segs.append([h, 1])
+        s_ = im.stats()
+        state = im.get_inflammation_state()
+        table = " ".join(f"{k}={rle(['1' if b else '0' for b in v])}" for k, v in bits.items())
+        jtok = "" if not jsall else next(iter(jsall)) if len(jsall) == 1 else "O"
+        lines[idx] = (line + " @ " + table).rstrip() + ((" ; " + jtok) if jtok else "")
+        return ("bulkcheck | " + " | ".join(f"{k}x {h}" for h, k in segs) + f" | st={int(state.level)} "
+                f"tc={state.trigger_count} cool={show_bool(state.is_in_cooldown())} cc={s_['check_count']} bc={s_['block_count']}")
+
     def _run_bulk(self, m, t, line, lines, idx):
         """`bulk <n> <pre> <suf>`: n filter() calls on the one membrane, inputs pre + str(i) + suf (pairwise distinct) -
         a history long enough to cross any bound on what the membrane remembers.  Recorded after `@`: per regex key
@@ -1760,7 +1966,7 @@ class C10(Prop):
             content = pre + str(i) + suf
             k0 = len(self.rxlog)
             try:
-                r = m.filter(self.Signal(content=content))
+                r = m.filter(self._signal(content))
             except Exception as e:
                 r = None
                 heads.append(f"raise:{type(e).__name__}")
@@ -1993,7 +2199,22 @@ class C10(Prop):
                 S.thr = int(t[1])
                 S.epoch_blocked = []
             elif op == "rate":
-                S.rate = None if t[1] == "none" else int(t[1])
+                S.rate = None if t[1] == "none" else int(self._num(t[1]))
+            elif op == "sigop" and o == "ok":
+                sg_ = [self._parse_sig(x) for x in t[2:]]
+                if t[1] == "append":
+                    S.sigs.append(sg_[0])
+                elif t[1] == "insert0":
+                    S.sigs.insert(0, sg_[0])
+                elif t[1] == "pop":
+                    S.sigs.pop()
+                elif t[1] == "remove0":
+                    del S.sigs[0]
+                elif t[1] == "clear":
+                    S.sigs = []
+                else:
+                    S.sigs = sg_
+                S.epoch_blocked = []
             elif op == "adaptive":
                 S.adaptive = t[1] == "1"
             elif op == "addsig":
@@ -2129,6 +2350,49 @@ class C10(Prop):
         acute = []
         checks = 0
         states, cur, ibase = [None], 0, []      # several filters alive: each judged by ITS OWN patterns / validators
+
+        def judge_check(content, f, o, idx):
+            """one decision of `check` (f = [allowed, m=[..], err=<n>, lvl=<l>, ...]) against the property text, under the
+            patterns, validators and threshold in force at this moment"""
+            allowed = f[0] == "1"
+            matched = [self._parse_sig(x) for x in f[1][3:-1].split(",") if x]
+            hits = [s for s in pats if self._sig_hits(s, content)]
+            blockers = [s for s in hits if s[1] >= thr]
+            if sorted(matched) != sorted(hits):
+                out.append(Violation("matched_are_the_matching_signatures", repr(sorted(hits))[:200],
+                                     repr(sorted(matched))[:200], idx))
+            if allowed and blockers:
+                out.append(Violation("allowed_only_if_clean", "blocked: " + repr(blockers[:2]), o[:120], idx))
+            rej = [v for v in vals if self._val_rejects(v, content)]
+            if allowed and rej:
+                out.append(Violation("allowed_only_if_validators_accept", f"rejected by {rej}", o[:120], idx))
+            if f[2] != f"err={len(rej)}":
+                out.append(Violation("structural_errors_are_the_rejecting_validators", f"err={len(rej)}", f[2], idx))
+            for prev in recent:
+                ex = self._variant_expectation(prev, content, pats, thr, ibase)
+                if ex == "expect" and allowed:
+                    out.append(Violation("blocked_stays_blocked_under_case_and_embedding",
+                                         f"blocked like {prev[0][:40]!r}", o[:80], idx))
+                    break
+            # ... also when the block came from accumulated inflammation (level ACUTE, no single pattern at the
+            # threshold): a variant that sets off everything the blocked input set off, and is rejected by no fewer
+            # validators, is blocked as well
+            for (base, bhits, nrej) in acute:
+                if base == content or not allowed or len(rej) < nrej:
+                    continue
+                casev = base.casefold() == content.casefold()
+                emb = base != "" and base in content and self._separated(base, content)
+                if (casev or emb) and all(self._sig_hits(s_, content) for s_ in bhits):
+                    out.append(Violation("blocked_stays_blocked_under_case_and_embedding",
+                                         f"ACUTE-blocked like {base[:40]!r}", o[:80], idx))
+                    break
+            if not allowed and blockers and len(content) < 5000:
+                recent.append((content, blockers))
+                del recent[:-6]
+            if not allowed and not blockers and "lvl=4" in f and len(content) < 5000:
+                acute.append((content, hits, len(rej)))
+                del acute[:-4]
+
         for idx, (line, o) in enumerate(zip(lines, obs)):
             t = line.split(" ")
             op = t[0]
@@ -2167,8 +2431,24 @@ class C10(Prop):
             elif op == "setvals":
                 vals = [] if t[1] in ("empty", "none") else t[1].split(",")
             elif op == "sevthr":
-                thr = int(t[1])
+                thr = int(self._num(t[1]))
                 recent = []
+            elif op == "patop" and o == "ok":
+                sg_ = [self._parse_sig(x) for x in t[2:]]
+                pats = list(pats)
+                if t[1] == "append":
+                    pats.append(sg_[0])
+                elif t[1] == "insert0":
+                    pats.insert(0, sg_[0])
+                elif t[1] == "pop":
+                    pats.pop()
+                elif t[1] == "remove0":
+                    del pats[0]
+                elif t[1] == "clear":
+                    pats = []
+                else:
+                    pats = sg_
+                recent, acute = [], []
             elif op == "check":
                 content = dec(t[1])
                 checks += 1
@@ -2180,44 +2460,26 @@ class C10(Prop):
                     if not o.startswith("raise:hook:"):
                         out.append(Violation("never_raises", "an InnateCheckResult for every input string", o[:80], idx))
                     continue
-                allowed = f[0] == "1"
-                matched = [self._parse_sig(x) for x in f[1][3:-1].split(",") if x]
-                hits = [s for s in pats if self._sig_hits(s, content)]
-                blockers = [s for s in hits if s[1] >= thr]
-                if sorted(matched) != sorted(hits):
-                    out.append(Violation("matched_are_the_matching_signatures", repr(sorted(hits))[:200],
-                                         repr(sorted(matched))[:200], idx))
-                if allowed and blockers:
-                    out.append(Violation("allowed_only_if_clean", "blocked: " + repr(blockers[:2]), o[:120], idx))
-                rej = [v for v in vals if self._val_rejects(v, content)]
-                if allowed and rej:
-                    out.append(Violation("allowed_only_if_validators_accept", f"rejected by {rej}", o[:120], idx))
-                if f[2] != f"err={len(rej)}":
-                    out.append(Violation("structural_errors_are_the_rejecting_validators", f"err={len(rej)}", f[2], idx))
-                for prev in recent:
-                    ex = self._variant_expectation(prev, content, pats, thr, ibase)
-                    if ex == "expect" and allowed:
-                        out.append(Violation("blocked_stays_blocked_under_case_and_embedding",
-                                             f"blocked like {prev[0][:40]!r}", o[:80], idx))
-                        break
-                # ... also when the block came from accumulated inflammation (level ACUTE, no single pattern at the
-                # threshold): a variant that sets off everything the blocked input set off, and is rejected by no fewer
-                # validators, is blocked as well
-                for (base, bhits, nrej) in acute:
-                    if base == content or not allowed or len(rej) < nrej:
+                judge_check(content, f, o, idx)
+            elif op == "bulkcheck" and o.startswith("bulkcheck | "):
+                # a long run of checks on the one filter: every decision is judged like a single check
+                segs = o.split(" | ")
+                heads = []
+                for part in segs[1:-1]:
+                    k_, h_ = part.split("x ", 1)
+                    heads.extend([h_] * int(k_))
+                pre_, suf_ = unhexs(t[2]), unhexs(t[3])
+                for i, h_ in enumerate(heads):
+                    checks += 1
+                    if h_.startswith("raise:"):
+                        out.append(Violation("never_raises", "an InnateCheckResult for every input string", h_[:80], idx))
                         continue
-                    casev = base.casefold() == content.casefold()
-                    emb = base != "" and base in content and self._separated(base, content)
-                    if (casev or emb) and all(self._sig_hits(s_, content) for s_ in bhits):
-                        out.append(Violation("blocked_stays_blocked_under_case_and_embedding",
-                                             f"ACUTE-blocked like {base[:40]!r}", o[:80], idx))
+                    judge_check(pre_ + str(i) + suf_, h_.split(" "), f"check {i} of the bulk line: " + h_, idx)
+                    if len(out) > 40:
                         break
-                if not allowed and blockers and len(content) < 5000:
-                    recent.append((content, blockers))
-                    del recent[:-6]
-                if not allowed and not blockers and "lvl=4" in f and len(content) < 5000:
-                    acute.append((content, hits, len(rej)))
-                    del acute[:-4]
+                cc = next((x for x in segs[-1].split(" ") if x.startswith("cc=")), "cc=?")
+                if cc != f"cc={checks}" and len(out) <= 40:
+                    out.append(Violation("bookkeeping_complete", f"cc={checks}", cc, idx))
 
     def nontrivial(self, case, obs):
         return any(o.startswith("0 ") for o in obs)
